@@ -5,7 +5,10 @@ global size_of usize == 8;
 #[derive(Clone, Copy)]
 pub struct ByteSz { pub b: u64 }
 impl ByteSz {
-    #[verifier::external_body] pub fn as_bytes_u64(&self) -> (r: u64) { unimplemented!() }
+    // IggyByteSize is a u64 newtype; as_bytes_u64 returns the number (sdk/src/utils/byte_size.rs)
+    #[verifier::external_body] pub fn as_bytes_u64(&self) -> (r: u64) ensures r == self.b, { unimplemented!() }
+    // IggyByteSize::default(): used only by a log line here
+    #[verifier::external_body] pub fn default() -> (r: ByteSz) { unimplemented!() }
 }
 // no requires, no functional specification: the value is opaque
 impl vstd::std_specs::ops::AddAssignSpecImpl for ByteSz {
@@ -55,4 +58,217 @@ pub open spec fn is_suffix(c: Seq<RetainedMessage>, s: Seq<RetainedMessage>) -> 
 pub open spec fn cache_run_wf(p: &Partition) -> bool {
     let c = cache_msgs(p);
     c.len() > 0 ==> contig(c, c[0].offset as int) && c[0].offset + c.len() == p.current_offset + 1
+}
+
+// =====================================================================================================================================
+// the refill path (Partition::get_newest_messages_by_size and below)
+// =====================================================================================================================================
+// ---- stored batches, their sizes and file positions: VERBATIM from units/read_log/prelude.rs (= vx/prelude/segview.rs + slices.rs) ----
+pub struct BatchV { pub base: int, pub delta: int, pub max_ts: int, pub msgs: Seq<RetainedMessage> }
+pub open spec fn batch_view(b: &RetainedMessageBatch) -> BatchV {
+    BatchV { base: b.base_offset as int, delta: b.last_offset_delta as int, max_ts: b.max_timestamp as int, msgs: b.bytes.msgs() }
+}
+pub open spec fn views(v: Seq<RetainedMessageBatch>) -> Seq<BatchV> { v.map(|i: int, b: RetainedMessageBatch| batch_view(&b)) }
+pub open spec fn flat(f: Seq<BatchV>) -> Seq<RetainedMessage>
+    decreases f.len(),
+{
+    if f.len() == 0 { Seq::empty() } else { flat(f.drop_last()) + f.last().msgs }
+}
+pub proof fn lemma_flat_push(f: Seq<BatchV>, b: BatchV)
+    ensures flat(f.push(b)) == flat(f) + b.msgs,
+{ assert(f.push(b).drop_last() =~= f); }
+pub proof fn lemma_flat_add(a: Seq<BatchV>, b: Seq<BatchV>)
+    ensures flat(a + b) == flat(a) + flat(b),
+    decreases b.len(),
+{
+    if b.len() == 0 {
+        assert(a + b =~= a);
+        assert(flat(a) + flat(b) =~= flat(a));
+    } else {
+        lemma_flat_add(a, b.drop_last());
+        assert((a + b).drop_last() =~= a + b.drop_last());
+        assert((a + b).last() == b.last());
+        assert((flat(a) + flat(b.drop_last())) + b.last().msgs =~= flat(a) + (flat(b.drop_last()) + b.last().msgs));
+    }
+}
+// bytes a stored batch occupies: 24-byte header + encoded messages
+pub open spec fn bsize(b: BatchV) -> nat { (24 + total_size(b.msgs)) as nat }
+// file position at which batch k starts (k == len: end of file)
+pub open spec fn pos(f: Seq<BatchV>, k: int) -> nat
+    decreases k,
+{
+    if k <= 0 { 0 } else { pos(f, k - 1) + bsize(f[k - 1]) }
+}
+pub proof fn lemma_pos_mono(f: Seq<BatchV>, i: int, j: int)
+    requires 0 <= i <= j,
+    ensures pos(f, i) <= pos(f, j), i < j ==> pos(f, i) + 24 <= pos(f, j),
+    decreases j - i,
+{
+    if i < j { lemma_pos_mono(f, i, j - 1); }
+}
+pub open spec fn pos_injective(f: Seq<BatchV>) -> bool {
+    forall|i: int, j: int| 0 <= i <= f.len() && 0 <= j <= f.len() && #[trigger] pos(f, i) == #[trigger] pos(f, j) ==> i == j
+}
+pub proof fn lemma_pos_inj_all(f: Seq<BatchV>)
+    ensures pos_injective(f),
+{
+    assert forall|i: int, j: int| 0 <= i <= f.len() && 0 <= j <= f.len() && #[trigger] pos(f, i) == #[trigger] pos(f, j) implies i == j by {
+        if i < j { lemma_pos_mono(f, i, j); }
+        if j < i { lemma_pos_mono(f, j, i); }
+    }
+}
+
+impl SegmentLogReader {
+    // A-io: the log file behind the reader, as the sequence of stored batches; the published size is its length
+    pub uninterp spec fn file(&self) -> Seq<BatchV>;
+    pub open spec fn reader_ok(&self) -> bool { self.log_size_bytes.v == pos(self.file(), self.file().len() as int) }
+
+    // SegmentLogReader::read_next_batch — VERBATIM from units/read_log/prelude.rs (byte-level parsing of header and payload; its
+    // torn-file behaviour is C04's): at the start position of a complete stored batch it returns that batch and its size (or an I/O
+    // error); it returns None only where no complete batch starts within file_size; it never invents a batch.
+    #[verifier::external_body]
+    pub fn read_next_batch(&self, offset: u64, file_size: u64) -> (r: Result<Option<(RetainedMessageBatch, u64)>, IggyError>)
+        ensures
+            r matches Ok(Some((b, n))) ==> exists|k: int| 0 <= k < self.file().len() && offset == pos(self.file(), k)
+                && #[trigger] batch_view(&b) == self.file()[k] && n == bsize(self.file()[k]) && offset + n <= file_size,
+            r matches Ok(None) ==> !exists|k: int| 0 <= k < self.file().len() && offset == #[trigger] pos(self.file(), k) && pos(self.file(), k + 1) <= file_size,
+    { unimplemented!() }
+
+    // SegmentLogReader::load_batches_by_range_impl (logs/log_reader.rs). ASSUMED here, PROVED in unit read_log: exactly the requires and
+    // the clauses [C02.range.run], [C02.range.reach], [C02.range.min] of units/read_log/contracts.vspec (text VERBATIM from
+    // units/read_disk/prelude.rs, whose copy is linked by the harness [C02.link.read_disk.load_batches_by_range_impl] of unit read_log).
+    #[verifier::external_body]
+    pub fn load_batches_by_range_impl(&self, index_range: &IndexRange) -> (r: Result<Vec<RetainedMessageBatch>, IggyError>)
+        requires
+            self.reader_ok(),
+            exists|ks: int| 0 <= ks <= self.file().len() && index_range.start.position == #[trigger] pos(self.file(), ks),
+        ensures
+            // [C02.range.run]
+            r is Ok ==> forall|ks: int| 0 <= ks <= self.file().len() && index_range.start.position == #[trigger] pos(self.file(), ks)
+                ==> ks + r->Ok_0@.len() <= self.file().len() && views(r->Ok_0@) == self.file().subrange(ks, ks + r->Ok_0@.len()),
+            // [C02.range.reach]
+            r is Ok ==> forall|ks: int| 0 <= ks < self.file().len() && index_range.start.position == #[trigger] pos(self.file(), ks)
+                ==> r->Ok_0@.len() >= 1 && (ks + r->Ok_0@.len() == self.file().len()
+                     || pos(self.file(), ks + r->Ok_0@.len() - 1) >= index_range.end.position),
+            // [C02.range.min]
+            r is Ok ==> forall|ks: int, j: int| 0 <= ks <= self.file().len() && index_range.start.position == #[trigger] pos(self.file(), ks)
+                && ks <= j < ks + r->Ok_0@.len() - 1 ==> #[trigger] pos(self.file(), j) < index_range.end.position,
+    { unimplemented!() }
+
+    // R8-callback-schema, call-site half: the batches `load_batches_by_size_with_callback(bytes_to_load, f)` hands to `f`, in order.
+    // PROVED from the real function by the link harnesses [C03.link.cache_warm.load_batches_by_size_items] (first clause) and
+    // [C03.link.cache_warm.load_batches_by_size_items.shape.cut] (second clause) of lemmas.rs (mirror edits there): the newest stored
+    // batches — a run of whole batches at the END of the file, in file order; and where it is cut: exactly the batches that START
+    // within the last `bytes_to_load` bytes of the file.
+    #[verifier::external_body]
+    pub fn load_batches_by_size_items(&self, bytes_to_load: u64) -> (r: Result<Vec<RetainedMessageBatch>, IggyError>)
+        requires
+            self.reader_ok(),
+        ensures
+            r is Ok ==> is_file_suffix(self.file(), views(r->Ok_0@)),
+            r is Ok ==> newest_by_size(self.file(), bytes_to_load as int, views(r->Ok_0@)),
+    { unimplemented!() }
+}
+// `got` is a run of whole stored batches at the end of the file `f`
+pub open spec fn is_file_suffix(f: Seq<BatchV>, got: Seq<BatchV>) -> bool {
+    exists|k: int| 0 <= k <= f.len() && got == #[trigger] f.subrange(k, f.len() as int)
+}
+// the byte budget: `got` is the run of the stored batches `f` that start within the last `budget` bytes of the file
+pub open spec fn newest_by_size(f: Seq<BatchV>, budget: int, got: Seq<BatchV>) -> bool {
+    exists|k: int| #[trigger] newest_cut(f, budget, k) && got == f.subrange(k, f.len() as int)
+}
+pub open spec fn newest_cut(f: Seq<BatchV>, budget: int, k: int) -> bool {
+    &&& 0 <= k <= f.len()
+    &&& forall|j: int| 0 <= j < k ==> #[trigger] pos(f, j) + budget < pos(f, f.len() as int)
+    &&& forall|j: int| k <= j < f.len() ==> #[trigger] pos(f, j) + budget >= pos(f, f.len() as int)
+}
+// the bytes a run of stored batches occupies
+pub open spec fn bytes_of(c: Seq<BatchV>) -> nat { pos(c, c.len() as int) }
+
+// R8-callback-schema, reader half: the callback as an object whose only observable is the list of batches it accepted (a call may fail)
+pub struct BatchCallback { pub items: Vec<RetainedMessageBatch> }
+impl BatchCallback {
+    #[verifier::external_body]
+    pub fn call(&mut self, batch: RetainedMessageBatch) -> (r: Result<(), IggyError>)
+        ensures
+            r is Ok ==> final(self).items@ == old(self).items@.push(batch),
+            r is Err ==> final(self).items@ == old(self).items@,
+    { unimplemented!() }
+}
+
+impl RetainedMessageBatch {
+    // Sizeable::get_size_bytes (header + payload length): used only by a log line here
+    #[verifier::external_body] pub fn get_size_bytes(&self) -> (r: ByteSz) { unimplemented!() }
+}
+// R8 batch-iteration schema (VERBATIM from unit read_log): RetainedMessageBatch::into_messages_iter yields the encoded messages in order
+#[verifier::external_body]
+pub fn batch_messages(b: RetainedMessageBatch) -> (r: Vec<RetainedMessage>)
+    ensures r@ == b.bytes.msgs(),
+{ unimplemented!() }
+
+// ---- A-std schemas ----
+// `v.iter().rev()`: the elements last to first
+#[verifier::external_body]
+pub fn std_iter_rev<T>(v: &Vec<T>) -> (r: Vec<&T>)
+    ensures r@.len() == v@.len(), forall|i: int| 0 <= i < r@.len() ==> *(#[trigger] r@[i]) == v@[v@.len() - 1 - i],
+{ unimplemented!() }
+// `v.splice(..0, items)`: replaces the empty range at the front by the items, i.e. prepends them
+#[verifier::external_body]
+pub fn vec_splice_front<T>(v: &mut Vec<T>, items: Vec<T>)
+    ensures final(v)@ == items@ + old(v)@,
+{ unimplemented!() }
+// `v.extend(items)`: appends the items
+#[verifier::external_body]
+pub fn vec_extend_items<T>(v: &mut Vec<T>, items: Vec<T>)
+    ensures final(v)@ == old(v)@ + items@,
+{ unimplemented!() }
+// R4 (Arc<T> == T): `.into_iter().map(Arc::new)` / `.into_iter().map(Arc::new).collect()` / `.map(Arc::new).collect::<Vec<_>>()` are
+// the same items (verified identities)
+pub trait ArcMapIdent: Sized { fn into_iter_map_arc_new(self) -> Self; fn into_iter_map_arc_new_collect(self) -> Self; fn map_arc_new_collect(self) -> Self; }
+impl<T> ArcMapIdent for Vec<T> {
+    fn into_iter_map_arc_new(self) -> (r: Self) ensures r == self, { self }
+    fn into_iter_map_arc_new_collect(self) -> (r: Self) ensures r == self, { self }
+    fn map_arc_new_collect(self) -> (r: Self) ensures r == self, { self }
+}
+
+// ---- the partition's stored log ----
+// A-io: reader and writer of a segment are handles on the same file (vx/prelude/segview.rs seg_disk; rd_wf of unit read_disk)
+pub open spec fn seg_file(s: &Segment) -> Seq<BatchV> { s.log_reader->0.file() }
+// what the restart leaves for every segment: a reader whose published size is the file's length ([C03.seg.published]), size_bytes the
+// file's length ([C03.seg.size]), the file below 4 GiB (A-size: index positions are u32; as rd_wf of unit read_disk)
+pub open spec fn seg_rd_ok(s: &Segment) -> bool {
+    &&& s.log_reader is Some
+    &&& s.log_reader->0.reader_ok()
+    &&& s.size_bytes.b == pos(seg_file(s), seg_file(s).len() as int)
+    &&& pos(seg_file(s), seg_file(s).len() as int) <= u32::MAX
+}
+// the stored batches of the segments [j, len) / [0, j), oldest first
+pub open spec fn tail_batches(segs: Seq<Segment>, j: int) -> Seq<BatchV>
+    decreases segs.len() - j,
+{
+    if j >= segs.len() || j < 0 { Seq::empty() } else { seg_file(&segs[j]) + tail_batches(segs, j + 1) }
+}
+pub open spec fn head_batches(segs: Seq<Segment>, j: int) -> Seq<BatchV>
+    decreases j,
+{
+    if j <= 0 { Seq::empty() } else { head_batches(segs, j - 1) + seg_file(&segs[j - 1]) }
+}
+pub open spec fn part_batches(p: &Partition) -> Seq<BatchV> { tail_batches(p.segments@, 0) }
+// the partition's stored log: flat over the segments in order (after a restart the buffers are empty: this is the whole log)
+pub open spec fn part_stored(p: &Partition) -> Seq<RetainedMessage> { flat(part_batches(p)) }
+pub open spec fn part_rd_ok(p: &Partition) -> bool {
+    forall|i: int| 0 <= i < p.segments@.len() ==> seg_rd_ok(#[trigger] &p.segments@[i])
+}
+// the loaded-partition invariant as far as the cache refill needs it: the stored log is one contiguous run that ends at the partition's
+// current offset (units recovery / recovery_more: [C03.view], [C03.next], [C03.end])
+pub open spec fn stored_run_wf(p: &Partition) -> bool {
+    let s = part_stored(p);
+    s.len() > 0 ==> contig(s, s[0].offset as int) && s.last().offset == p.current_offset
+}
+// typed views of locals declared by `let mut x = Vec::new()` (their element type is inferred later)
+pub open spec fn bviews(v: &Vec<RetainedMessageBatch>) -> Seq<BatchV> { views(v@) }
+pub open spec fn mview(v: &Vec<RetainedMessage>) -> Seq<RetainedMessage> { v@ }
+// `c` is a run of whole batches at the end of `s`
+pub open spec fn is_bsuffix(c: Seq<BatchV>, s: Seq<BatchV>) -> bool {
+    exists|pre: Seq<BatchV>| s == #[trigger] (pre + c)
 }
